@@ -764,6 +764,17 @@ def rule_local_selector_retired(ctx):
             r.check(l.pos is False, "%s|unit#%d" % (b.id, k), "selector-asserted", "the unit clause retires the selector (negative)", "a local selector is asserted by a unit clause instead of being retired: the clause it guards stays active for the rest of the solver's life", a.loc())
         for k, s in enumerate(solves):
             lits = tags.literals_of(prog, b, s.node["args"][1], set())
+            # a clause that carries the selector with the polarity it is assumed with is satisfied by the assumption itself: it asks nothing
+            for l in lits:
+                ident = _selector_identity(prog, b, l)
+                if ident is None or ident[0] != "site" or l.pos is None:
+                    continue
+                for a in adds:
+                    if a.bb == s.bb or not b.reaches(a.bb, s.bb):
+                        continue
+                    cl = tags.literals_of(prog, b, a.node["args"][1], set())
+                    if len(cl) > 1 and any(x.pos is l.pos and _selector_identity(prog, b, x) == ident for x in cl):
+                        r.violation("%s|solve#%d" % (b.id, k), "selector-satisfies-its-clause", "the clause stating the query carries the selector %s and the SAT call assumes it %s: the assumption satisfies the clause, the call asks nothing of the listed arguments" % ("positively" if l.pos else "negated", "positively" if l.pos else "negated"), a.loc())
             local = [(l, _selector_identity(prog, b, l)) for l in lits if l.pos and _selector_identity(prog, b, l) is not None]
             if not local:
                 continue
@@ -935,3 +946,37 @@ def rule_maximal_result_from_search(ctx):
                     else:
                         r.ok(anchor + "|state", "NOT decided: the state test governing the return is not of a recognised form (%s)" % show(st[0][0])[:80], b.loc())
     r.floor(n, 2, "methods of the computer handing out a set")
+
+
+def rule_selector_is_next_variable(ctx):
+    """C06 / C02 / C03 / C18: a selector is a variable nobody uses yet"""
+    prog = ctx.prog
+    from ..prov import prov, show, subterms
+    from .splits import linear
+    from .grounded import _is_call
+
+    r = ctx.rule(
+        "selector-is-the-next-variable",
+        "a selector literal made from the solver's variable count is `n_vars() + 1`: the first variable the encoding does not use (with `n_vars()` "
+        "it is the last variable of the encoding - a range variable or an auxiliary one - and assuming it changes the question)",
+    )
+    n = 0
+    for b in sorted(prog.lib_bodies(), key=lambda x: x.id):
+        fnb = prog.enclosing_fn(b)
+        if not (fnb.path.startswith("solvers::") or "<solvers::" in fnb.path.split(" as ")[0] or fnb.path.startswith("dynamics::") or "<dynamics::" in fnb.path.split(" as ")[0]):
+            continue
+        for s in b.calls():
+            c = callee_of(s)
+            if not (c and callee_decl(c) == "core::convert::From::from" and "sat::sat_solver::Literal" in b.local_ty(s.node["dst"]["l"])):
+                continue
+            for e in prov(prog, b, s.node["args"][0]):
+                if not any(_is_call(t, r"SatSolver::n_vars$") for t in subterms(e)):
+                    continue
+                n += 1
+                v = linear(e, lambda t: "N" if _is_call(t, r"SatSolver::n_vars$") else None)
+                anchor = "%s|selector@%s" % (fnb.id, s.bb)
+                if v is None:
+                    r.ok(anchor, "NOT decided: %s" % show(e)[:80], s.loc())
+                else:
+                    r.check(v == {"N": 1, 1: 1}, anchor, "selector-value:%s" % sorted(v.items(), key=str), "the selector is n_vars() + 1", "the selector is variable %s: %s" % (" ".join("%+d*%s" % (c_, k) if k != 1 else "%+d" % c_ for k, c_ in sorted(v.items(), key=str)), "a variable of the encoding, not a fresh one" if v.get(1, 0) < 1 else "it leaves a gap below it (harmless for the answers, but every later `n_vars() + 1` assumes the numbering is dense)"), s.loc())
+    r.floor(n, 4, "selectors made from the solver's variable count")
